@@ -34,13 +34,20 @@ Definition c03_in_domain (input : list txn) : bool :=
   && Z.ltb (zsum (map (fun p => Z.abs (rescale (p_amount p) s)) ps)) (2 ^ 96).
 
 (* input: the transactions in FILE order; names: literal account names of the selector
-   (empty = all); obs: the implementation's register entries (file index of the
-   transaction, rows). bits: 1 = model agrees; 2 = specification oracle holds on the
+   (empty = all); order: file positions in the implementation's transaction order (op
+   `txns`); obs: the implementation's register entries (file position of the
+   transaction, rows). Entries without rows are dropped on both sides (the text report
+   does not show them). bits: 1 = model agrees; 2 = specification oracle holds on the
    implementation's output; 4 = inside the exact decimal domain *)
-Definition c03_case (input : list txn) (names : list acct) (obs : list (nat * list orow)) : N :=
-  let model := register conv_id (sel_names names) input in
-  let agree := rforall2b (entry_agree input) model obs in
-  ((if agree then 1 else 0) + (if reg_ok input names obs then 2 else 0)
+Definition c03_case (input : list txn) (names : list acct) (order : list nat)
+           (obs : list (nat * list orow)) : N :=
+  let model := register_text_entries conv_id (sel_names names) input in
+  let agree := rforall2b (entry_agree input) model (filter has_rows obs)
+               && match pick input order with
+                  | Some out => list_eqb txn_eqb (sort_txns input) out
+                  | None => false
+                  end in
+  ((if agree then 1 else 0) + (if reg_ok input names order obs then 2 else 0)
    + (if c03_in_domain input then 4 else 0))%N.
 
 (* the order alone (op `txns`): idxs = file indices in the implementation's order *)
